@@ -46,6 +46,77 @@ def public_result_fns(facts):
     return out
 
 
+DTD = 'util::date::convert::date_to_days'
+YDD = 'util::date::convert::year_doy_to_days'
+MIN_YEAR, MAX_YEAR = -5_879_611, 5_879_611
+
+
+def oor_payload(rv):
+    """the OutOfRange struct carried by an Err result, or None"""
+    try:
+        e = rv[2][1][0]
+        s = e[2][0][0]
+        return s[2] if s[0] == 's' and s[1] == OOR else None
+    except (KeyError, IndexError, TypeError):
+        return None
+
+
+def edge_cases(ctx, N):
+    """D1x: the first and the last representable year, path by path (no joins): the day-number kernels are analysed with the year pinned to
+    MIN_DATE.0 / MAX_DATE.0 and every other argument symbolic.  For every error path that states a range for argument p, the Ok paths of the
+    same case (every other argument inside the values it has on the error path) give the accepted values of p exactly; the stated range
+    must contain them (O2, both ends -- also the end that a sibling guard in another function enforces) and exclude the rejected value (O1)."""
+    from ..models import const_int
+    I = N.I
+    total = good = 0
+    for fn in (DTD, YDD):
+        if fn not in I.bodies:
+            ctx.finding(f'C15:ANCHOR|{fn}', 'C15-D1x', None, f'ANCHOR-MISSING: {fn}')
+            continue
+        old_part = I.return_partition.get(fn)
+        I.return_partition[fn] = lambda I_, st, v: id(st)
+        span = I.bodies[fn]['span']
+        for year in (MIN_YEAR, MAX_YEAR):
+            label = f'{fn}[year {year}]'
+            N.run(fn, label=label, overrides={'year': lambda I_, st, ty, year=year: const_int(year, 'i32')}, variants=('fixed',))
+            for args, st0, outs in N.results.get(label, []):
+                params = [a[1] for a in args if a[0] == 'i']
+                oks = [(st, rv) for st, rv in outs if rv[0] == 'e' and set(rv[2]) == {0}]
+                for st, rv in outs:
+                    pl = oor_payload(rv) if (rv[0] == 'e' and 1 in rv[2]) else None
+                    if pl is None:
+                        continue
+                    name, mn, mx, val, custom, cond = pl
+                    if custom[0] == 'e' and 1 in custom[2]:
+                        continue          # states no range
+                    if not (mn[0] == mx[0] == val[0] == 'i') or val[1] not in params:
+                        continue
+                    total += 1
+                    pv = val[1]
+                    others = [q for q in params if q != pv and q not in D.CONSTVAL]
+                    (l1, h1), (l2, h2), (vl, vh) = D.get_iv(st, mn[1]), D.get_iv(st, mx[1]), D.get_iv(st, pv)
+                    fname = sorted(name[1].lits)[0] if name[0] == 'str' and name[1].lits else '?'
+                    case = ', '.join(f'{D.NAME.get(q, q)} in {D.get_iv(st, q)}' for q in others)
+                    msg = None
+                    if not (vh < l1 or vl > h2):
+                        msg = f'O1: the rejected {fname} in [{vl}, {vh}] is not outside the stated range [{l1}, {h2}]'
+                    for so, ro in oks:
+                        if all(D.get_iv(st, q)[0] <= D.get_iv(so, q)[0] and D.get_iv(so, q)[1] <= D.get_iv(st, q)[1] for q in others):
+                            al, ah = D.get_iv(so, pv)
+                            if al < h1 or ah > l2:
+                                msg = msg or (f'O2: in the year {year} ({case}) a {fname} in [{al}, {ah}] is accepted, but the error for a rejected {fname} '
+                                              f'states the range [{h1}, {l2}]')
+                    if msg:
+                        ctx.finding(f'C15:EDGE-RANGE|{fn}|{year}|{fname}|{"above" if vl > h2 else "below"}', 'C15-D1x', span, f'{fn}: {msg}')
+                    else:
+                        good += 1
+        if old_part is None:
+            I.return_partition.pop(fn, None)
+        else:
+            I.return_partition[fn] = old_part
+    ctx.rule('C15-D1x stated ranges against the accepted values, first and last representable year, path by path', total, good, floor=8)
+
+
 def check(ctx):
     N = Numeric(ctx)
     I = N.I
@@ -69,6 +140,7 @@ def check(ctx):
                 if not (e[0] == 'e' and e[1] == 'errors::AstrolabeError' and set(e[2]) == {0}):
                     ctx.finding(f'C15:ERRKIND|{fn}', 'F3', I.bodies[fn]['span'], f'{fn}: an Err exit does not carry AstrolabeError::OutOfRange')
     N.check_o2()
+    edge_cases(ctx, N)
     nsites = sum(1 for k in N.oor_sites)
     exempt = sum(1 for k, v in N.oor_sites.items() if v.get('exempt'))
     ctx.rule('C15-D1 OutOfRange sites reached', nsites, nsites, floor=30, sample={'sites': nsites, 'exempt_custom_message': exempt})
